@@ -58,8 +58,11 @@ ACTOR_POOLS = {
 }
 
 
-def run_pool(name, tier, d, via=None, actors=False):
-    profile, allow, nq, nt, off = (MANAGER_POOLS if via else ACTOR_POOLS if actors else POOLS)[name]
+BOT_POOLS = {"bots": ("bots", "", 96, 1200, 400000)}
+
+
+def run_pool(name, tier, d, via=None, actors=False, bots=False):
+    profile, allow, nq, nt, off = (MANAGER_POOLS if via else ACTOR_POOLS if actors else BOT_POOLS if bots else POOLS)[name]
     n = nq if tier == "quick" else nt
     procs = 48 if n >= 96 else max(1, n // 2)
     if name == "kf-midhand-leave":
@@ -76,6 +79,8 @@ def run_pool(name, tier, d, via=None, actors=False):
             cmd += ["--via", via]
         if actors:
             cmd += ["--actors"]
+        if bots:
+            cmd += ["--bots"]
         jobs.append((cmd, out))
 
     def run(job):
